@@ -212,6 +212,7 @@ fn km_cases(max_len: usize) -> Vec<KmCase> {
                     n_runs: 1,
                     tolerances: tolerances.clone(),
                     max_len,
+                    replicate: vec![],
                     only_history: None,
                 });
             }
@@ -228,12 +229,43 @@ fn km_cases(max_len: usize) -> Vec<KmCase> {
                         n_runs,
                         tolerances: tolerances.clone(),
                         max_len,
+                        replicate: vec![],
                         only_history: None,
                     });
                 }
             }
         }
     }
+    }
+    // ---- replicated large-batch family: one fit_with batch of 1024 / 1025 / 2500 rows built
+    // from four distinct points (cyclic or block layout), followed / preceded by a small batch;
+    // every sequence of length <= 2 over {large, small} ----
+    let pts = vec![vec![0.0, 0.0], vec![1.0, 0.0], vec![5.0, 5.0], vec![6.0, 4.0]];
+    let small = vec![vec![2.0, 2.5], vec![7.0, 7.0], vec![0.5, 0.25]];
+    let init2 = vec![vec![0.5, 0.25], vec![5.0, 4.0]];
+    for metric in ["L2", "L1"] {
+        for n in [1024usize, 1025, 2500] {
+            for layout in ["cyclic", "blocks"] {
+                for k in 1..=2usize {
+                    for (init, seed, n_runs) in [("precomputed", 0u64, 1usize), ("kmeans++", 42, 1), ("random", 7, 3)] {
+                        out.push(KmCase {
+                            pool_name: format!("large_{}_{}", n, layout),
+                            metric: metric.to_string(),
+                            pool: vec![pts.clone(), small.clone()],
+                            k,
+                            init: init.into(),
+                            init_centroids: if init == "precomputed" { init2[..k].to_vec() } else { vec![] },
+                            seed,
+                            n_runs,
+                            tolerances: vec![1e-4, 1.0, 100.0],
+                            max_len: 2,
+                            replicate: vec![km::Replicate { batch: 0, n, layout: layout.into() }],
+                            only_history: None,
+                        });
+                    }
+                }
+            }
+        }
     }
     out
 }
@@ -328,7 +360,7 @@ fn main() {
          (label-major, feature-major, riffle), x {gaussian var_smoothing 0, 1e-9, 1e-3; multinomial alpha 0, 0.5, 1}; per dataset EVERY composition of the rows into ordered non-empty batches \
          (prefix-sharing state graph: state = (rows consumed, sufficient statistics), transition = fit_with on the next s rows for every s; states with bit-identical statistics are merged). \
          k-means: distance function in {L2Dist, L1Dist, LInfDist} x 4 pools (2-d lattice, 2-d generic position, 1-d, 3-d) of 4 tiny batches, every batch sequence of length <= 3 / 4, k in {1,2,3}, precomputed initial centroids (incl. duplicated ones) / seeded k-means++ / seeded random, \
-         tolerances {1e-4, 0.5, 1, 2, 3, 100}. FTRL: pool of 4 batches (3 features), every sequence of length <= 3 / 4, alpha {0.005,0.5,1} x beta {0,1} x l1 {0,0.5,1} x l2 {0,0.5,1} x 3 initial z (two scripted, with |z| exactly on the l1 boundary, one as drawn by the crate's default generator). \
+         tolerances {1e-4, 0.5, 1, 2, 3, 100}; plus a large-batch family: batches of 1024 / 1025 / 2500 rows replicated from 4 distinct points (cyclic / block layout) combined with a 3-row batch in every sequence of length <= 2, k in {1,2}, precomputed / k-means++ / random init, L2 and L1. FTRL: pool of 4 batches (3 features), every sequence of length <= 3 / 4, alpha {0.005,0.5,1} x beta {0,1} x l1 {0,0.5,1} x l2 {0,0.5,1} x 3 initial z (two scripted, with |z| exactly on the l1 boundary, one as drawn by the crate's default generator). \
          non-trivial = the transition updates a non-empty previous model (a genuinely incremental step) or is a step of a fresh full-history replay.",
     );
     ctx.assume("oracle NB: own textbook estimates from the consumed rows (class frequencies; per-class mean and population variance + var_smoothing x largest population variance of a feature over all consumed rows; summed counts and (count+alpha)/(total+alpha*p)); class_count exact, prior 1e-12, theta / feature_log_prob relative 1e-9 (+1e-12 absolute), multinomial feature_count bit-exact");
@@ -337,7 +369,7 @@ fn main() {
     ctx.assume("the incremental-vs-batch prediction comparison is ASSERTED for Gaussian var_smoothing <= 1e-9 and for the multinomial model; for var_smoothing = 1e-3 clear-margin label differences are only MEASURED (coverage key gnb_smoothing_1e-3_clear_margin_flips_measured); a panic of predict on an incrementally fitted model whose textbook variances are all positive is reported for every var_smoothing > 0");
     ctx.assume("domain: predictions are compared only where the reference posterior is defined (every textbook smoothed variance > 0; every multinomial feature probability > 0); other states count as out_of_domain (their statistics are still compared)");
     ctx.assume("non-finite statistics pass through the serde image as null: an observed non-finite value matches any expected non-finite value");
-    ctx.assume("oracle k-means: from the previous state of the subject (checked before), assign every batch row to the nearest previous centroid (own reduced distance of the configured metric: squared Euclidean / sum of |d| / max |d|), then in row order count[c] += 1, c += (x - c)/count[c]; centroids 1e-12 (relative and absolute), counts exact; centroids equidistant within 1e-12 relative are a choice (every admissible combination accepted, at most 256 combinations, else indeterminate); Ok iff own shift < tolerance, shift = distance of the configured metric between the old and new centroid MATRIX as the subject's Distance::distance defines it on 2-d views (Frobenius norm for L2, sum of all |differences| for L1, largest |difference| for Linf), shifts within 1e-12 relative of the tolerance but not equal to it are indeterminate; inertia = mean reduced distance (squared for L2) of the batch rows to the nearest PREVIOUS centroid (1e-12)");
+    ctx.assume("oracle k-means: from the previous state of the subject (checked before), assign every batch row to the nearest previous centroid (own reduced distance of the configured metric: squared Euclidean / sum of |d| / max |d|), then in row order count[c] += 1, c += (x - c)/count[c]; centroids 1e-12 (relative and absolute; 1e-9 for batches of more than 64 rows, where a different correct summation order legitimately differs by ~n x 1e-16), counts exact; centroids equidistant within 1e-12 relative are a choice (every admissible combination accepted, at most 256 combinations, else indeterminate); Ok iff own shift < tolerance, shift = distance of the configured metric between the old and new centroid MATRIX as the subject's Distance::distance defines it on 2-d views (Frobenius norm for L2, sum of all |differences| for L1, largest |difference| for Linf), the verdict is judged exactly (also at shift == tolerance) only where the reference shift is decided in exact arithmetic (previous centroids, batch rows, every quotient, every new centroid and, for L2, the square root are multiples of 2^-10 below 2^10 and every division / root is verified exact); otherwise shifts within 1e-9 relative (1e-6 for batches > 64 rows) of the tolerance are indeterminate, so no particular rounding of an algebraically equivalent update is demanded; inertia = mean reduced distance (squared for L2) of the batch rows to the nearest PREVIOUS centroid (1e-12)");
     ctx.assume("seeded k-means initialisation is not part of the property: the observed first model must follow by the recurrence from SOME choice of k rows of the first batch as initial centroids (k distinct rows for random, any k rows for k-means++); a random initialisation from a first batch with fewer than k rows is out of domain");
     ctx.assume("oracle FTRL: from the previous (z, n) of the subject: w = 0 if |z| <= l1 else (sign(z) l1 - z)/((sqrt(n)+beta)/alpha + l2); p_i = sigmoid(clamp(x_i.w, +-35)) rounded to f32; g = sum_i (p_i - y_i) x_i; sigma = (sqrt(n+g^2) - sqrt(n))/alpha; z' = z + g - sigma w; n' = n + g^2; tolerance 1e-6 x (1 + magnitude of the operands); get_weights() exactly 0 wherever |z| <= l1 (exact comparison on the subject's own z), else the closed form to 1e-12; states whose reference weights are not finite (beta = 0, l2 = 0, n = 0, |z| > l1) are out of domain");
     ctx.assume("the initial z of FTRL is drawn by the subject from a generator supplied by the check that replays chosen dyadic values (rand 0.8 uniform f64 = (u64 >> 12) / 2^52); Ftrl::new is checked to produce exactly these values");
